@@ -84,6 +84,12 @@ Subtree(s) == {t \in Scopes : s \in PathSet(t)}
 View(f) == Fn(f).scope                                 \* the scope the function was given to
 Home(f) == IF Fn(f).exp THEN Root ELSE Fn(f).scope     \* where its registration and results live
 
+\* Cat.order, if not empty, fixes the order in which the functions it lists are registered and
+\* delays Invokes until all of them were offered (a bound on the exploration of large catalogs)
+InOrder(f) == Cat.order # <<>> /\ f \in ToSet(Cat.order) =>
+                 f = Cat.order[Cardinality(tried \cap ToSet(Cat.order)) + 1]
+AllOffered == ToSet(Cat.order) \subseteq tried
+
 Ctors  == {f \in Fns : Kind(f) = "ctor"}
 Decors == {f \in Fns : Kind(f) = "dec"}
 Invs   == {f \in Fns : Kind(f) = "inv"}
@@ -252,7 +258,7 @@ ProvideVerdict(f) ==
   ELSE "ok"
 
 Provide(f) ==
-  /\ Idle /\ f \in Ctors \ tried /\ View(f) \in created
+  /\ Idle /\ f \in Ctors \ tried /\ View(f) \in created /\ InOrder(f)
   /\ tried' = tried \cup {f}
   /\ LET v == ProvideVerdict(f) IN
      /\ Done("provide", f, View(f), Ret(v, "", 0, {}))
@@ -270,7 +276,7 @@ DecorateVerdict(d) ==
   ELSE "ok"
 
 Decorate(d) ==
-  /\ Idle /\ d \in Decors \ tried /\ Fn(d).scope \in created
+  /\ Idle /\ d \in Decors \ tried /\ Fn(d).scope \in created /\ InOrder(d)
   /\ tried' = tried \cup {d}
   /\ LET v == DecorateVerdict(d) IN
      /\ Done("decorate", d, Fn(d).scope, Ret(v, "", 0, {}))
@@ -287,7 +293,7 @@ NewFrame(f, s) == [f |-> f, view |-> s, pi |-> 1, args |-> [j \in 1..Len(Ps(f)) 
 InvFrame(i, s) == [NewFrame(i, s) EXCEPT !.pre = called]
 
 BeginInvoke(i, s) ==
-  /\ Idle /\ i \in Invs \ NestedInvs /\ s \in created /\ ninv < MaxInv
+  /\ Idle /\ i \in Invs \ NestedInvs /\ s \in created /\ ninv < MaxInv /\ AllOffered
   /\ ninv' = ninv + 1
   /\ LET mk == Shallow(i, s) IN
      IF Fn(i).inv # "" THEN
